@@ -370,8 +370,16 @@ def route_answer_discipline(ctx: Ctx, rule: str):
     mid = None
     for n in g.nodes:
         if n.kind == "stmt" and isinstance(n.ast, ast.Assign) and \
-                ast.unparse(n.ast.value).endswith(".header.hop_by_hop_identifier"):
+                "header.hop_by_hop_identifier" in ast.unparse(n.ast.value) \
+                and isinstance(n.ast.targets[0], ast.Name):
             mid = A.dotted(n.ast.targets[0])
+            cons_k = "route_answer:record-key-has-both-identifiers"
+            ctx.inst(cons_k, rule=rule)
+            if "header.end_to_end_identifier" not in ast.unparse(n.ast.value):
+                ctx.fail(cons_k, g.loc(n), f"the pending record is searched under `{ast.unparse(n.ast.value)}`: "
+                         f"hop-by-hop identifiers are unique per connection only, so with the same "
+                         f"value pending on two connections the first one found gets the answer",
+                         rule=rule)
     for d in dels:
         txt = d.text(200)
         if mid and f"[{mid}]" not in txt and f"({mid}" not in txt:
@@ -394,11 +402,33 @@ def route_answer_discipline(ctx: Ctx, rule: str):
         assigns = [n for n in g.nodes if n.kind == "stmt" and isinstance(n.ast, ast.Assign)
                    and any(A.dotted(t) == cvar for t in n.ast.targets)
                    and not (isinstance(n.ast.value, ast.Constant) and n.ast.value.value is None)]
+        # the connection is the one the record was filed under: looked up in self.connections by
+        # the key of the table entry that held the record
+        loopkeys = set()
+        for n_ in A.walk_no_nested(f.node):
+            if isinstance(n_, ast.For) and "_peer_waiting_answer" in ast.unparse(n_.iter) \
+                    and isinstance(n_.target, ast.Tuple) and n_.target.elts \
+                    and isinstance(n_.target.elts[0], ast.Name):
+                loopkeys.add(n_.target.elts[0].id)
+        for n_ in A.walk_no_nested(f.node):
+            if isinstance(n_, ast.Assign) and isinstance(n_.value, ast.Name) and n_.value.id in loopkeys:
+                loopkeys |= {t.id for t in n_.targets if isinstance(t, ast.Name)}
         for a_ in assigns:
-            fa = must_facts(g, at, a_)
-            if not any(f_[1] == "==x" and f_[3] and "host_identity" in f_[0] + str(f_[2]) for f_ in fa):
-                ctx.fail(cons + "#host", g.loc(a_), "the connection chosen for the answer is not "
-                         "required to be the waiting host's (host identity equality)", rule=rule)
+            v_ = a_.ast.value
+            okc = False
+            if isinstance(v_, ast.Call) and isinstance(v_.func, ast.Attribute) and v_.func.attr == "get" \
+                    and A.dotted(v_.func.value) == "self.connections" and v_.args \
+                    and isinstance(v_.args[0], ast.Name) and v_.args[0].id in loopkeys:
+                okc = True
+            if isinstance(v_, ast.Subscript) and A.dotted(v_.value) == "self.connections" \
+                    and isinstance(v_.slice, ast.Name) and v_.slice.id in loopkeys:
+                okc = True
+            if not okc:
+                ctx.fail(cons + "#connection", g.loc(a_), f"the connection chosen for the answer is "
+                         f"`{ast.unparse(v_)[:70]}`, not the connection registered under the key of "
+                         f"the table entry that held the pending record: the answer can leave on "
+                         f"another connection (e.g. any connection with the same host identity)",
+                         rule=rule)
     # every other exit raises NotRoutable
     cons = "route_answer:not-routable"
     ctx.inst(cons, rule=rule)
@@ -448,13 +478,15 @@ def route_answer_discipline(ctx: Ctx, rule: str):
 
 
 def waiting_table_keys(ctx: Ctx, rule: str):
-    """Every outer-level access to Node._peer_waiting_answer is keyed by the host identity of a
-    connection (or by a key obtained from iterating the table itself)."""
+    """Every outer-level access to Node._peer_waiting_answer is keyed by the ident of a
+    connection (or by a key obtained from iterating the table itself).  A record filed under
+    anything coarser than the connection - the peer's host identity - lets an answer travel on
+    another connection of that host, or survive into the host's next connection."""
     from ..typesx import expr_type
     model = ctx.model
     nc = model.cls("node.node", "Node")
     T = "self._peer_waiting_answer"
-    ctx.rule(rule, "the pending-answer table is keyed by <connection>.host_identity at every "
+    ctx.rule(rule, "the pending-answer table is keyed by <connection>.ident at every "
                    "insert, lookup, cleanup and removal", floor=5)
     for f in nc.all_funcs:
         if f.name == "__init__":
@@ -489,12 +521,20 @@ def waiting_table_keys(ctx: Ctx, rule: str):
                      sample={"where": f.loc(n), "key": ast.unparse(k)})
             if isinstance(k, ast.Name) and k.id in loopvars:
                 continue
-            if isinstance(k, ast.Attribute) and k.attr == "host_identity":
+            if isinstance(k, ast.Attribute) and k.attr == "ident":
                 t = expr_type(model, f, k.value)
                 if getattr(t, "name", None) == "PeerConnection":
                     continue
+            if isinstance(k, ast.Attribute) and k.attr in ("host_identity", "node_name", "origin_host"):
+                ctx.fail(cons, f.loc(n), f"{f.qualname} files/looks up pending requests under "
+                         f"`{ast.unparse(k)}` - the peer's name, not the connection: with two "
+                         f"connections of one host the answer is sent on the other one, and a record "
+                         f"that survives until the host reconnects lets a late answer travel on the new "
+                         f"connection (the property requires the connection the request arrived on)",
+                         rule=rule)
+                continue
             ctx.fail(cons, f.loc(n), f"{f.qualname} accesses the pending-answer table under "
-                     f"`{ast.unparse(k)}`; every other site keys it by <connection>.host_identity: "
+                     f"`{ast.unparse(k)}`; every other site keys it by <connection>.ident: "
                      f"records filed under one key are never found/removed under the other (stale "
                      f"records survive a disconnect and a late answer is sent on a new connection)",
                      rule=rule)
